@@ -12,7 +12,7 @@ func init() {
 		ID:    "C12",
 		Level: "proof",
 		Run:   c12,
-		Explanation: "Safety of the advisory lock is a finite-state statement about three small functions and two queries and is decided completely by a finite-domain abstract interpretation of their go/ssa form: abstract state (guard state U/S/X, shared count in {0,1,2,>=3}, exclusive holder in {nil,self,other}); for each of the five functions and each abstract pre-state satisfying the invariant (9 states, 45 obligations) the interpreter computes all outcomes (forking where >=3-1 is {2,>=3}) and checks: no assert/panic reachable, invariant preserved, result and post-state equal the POSIX-style specification (a failed attempt changes nothing, unlock of an unheld guard is a no-op, queries store nothing and report the success predicate). The quotient is justified by an origin check (the count is only compared with 0/1, changed by +-1 or set to 0/1). Frame conditions make the per-guard step proof a statement about the mutex: the three shared fields are written only by the three functions, every access happens under rw.mu (wrappers lock, call the helper, unlock; the state-change callback runs after the unlock). The blocking variants are decided by CFG rules: nil is returned only after a successful Try*, the context branch returns a non-nil error, the ticker branch retries the same operation.",
+		Explanation: "Safety of the advisory lock is a finite-state statement about three small functions and two queries and is decided completely by a finite-domain abstract interpretation of their go/ssa form: abstract state (guard state U/S/X, shared count in {0,1,2,>=3}, exclusive holder in {nil,self,other}); for each of the five functions and each abstract pre-state satisfying the invariant (9 states, 45 obligations) the interpreter computes all outcomes (forking where >=3-1 is {2,>=3}) and checks: no assert/panic reachable, invariant preserved, result and post-state equal the POSIX-style specification (a failed attempt changes nothing, unlock of an unheld guard is a no-op, queries store nothing and report the success predicate). The quotient is justified by an origin check (the count is only compared with 0/1, changed by +-1 or set to 0/1). Frame conditions make the per-guard step proof a statement about the mutex: the three shared fields are written only by the three functions, every access happens under rw.mu (wrappers lock, call the helper, unlock; the state-change callback runs after the unlock). The blocking variants are decided by CFG rules: nil is returned only after a successful Try*, the context branch returns a non-nil error, the ticker branch retries the same operation. A blocking variant touches the guard only through its own Try* operation (a failed or pending attempt changes nothing). The per-owner wrappers of DB (CanLock, CanRLock, TryLocks, TryRLocks) always work on the requesting owner's guard set (created when absent, never the nil-able lookup), query every requested lock type through that owner's guard and answer true only after all of them did.",
 		NotDecided: "'returns as soon as' (10 microsecond polling, timing) and data-race freedom under the race detector beyond the lock-discipline rule.",
 		Assumptions: []string{"go/ssa faithfully represents the source", "the abstract transfer functions in tool/rwabs.go are sound for the instructions that occur (unmodelled instructions fail closed)", "sync.Mutex provides mutual exclusion", "context.Context contract: Err() is non-nil once Done() is closed"},
 	})
